@@ -3,6 +3,306 @@ From Coq Require Import List Arith Bool Lia.
 From CelloV Require Import Generated Format.
 Import ListNotations.
 
+(* ------------------------------------------------------------------------------------------ *)
+(* finite side conditions on the character sets re-extracted from the C source *)
+
 (* every conversion character named by the property is recognised by the scanner's strchr set *)
 Lemma std_convs_recognised : forallb (fun c => memb c print_convs) std_convs = true.
 Proof. vm_compute. reflexivity. Qed.
+
+(* characters that may stand between '%' and the conversion character *)
+Definition mid_chars : list byte := flag_chars ++ digit_chars ++ [46] ++ concat length_mods.
+
+(* none of them ends a specification, none is '%' *)
+Lemma mid_chars_pass :
+  forallb (fun m => negb (strchr_hit print_convs m) && negb (m =? PCT)) mid_chars = true.
+Proof. vm_compute. reflexivity. Qed.
+
+Lemma std_convs_stop :
+  forallb (fun c => strchr_hit print_convs c && negb (c =? 0) && negb (c =? PCT)) (DOLLAR :: std_convs) = true.
+Proof. vm_compute. reflexivity. Qed.
+
+Lemma pct_passes : strchr_hit print_convs PCT = false.
+Proof. vm_compute. reflexivity. Qed.
+
+Lemma pct_skip_is_2 : print_pct_skip = 2.
+Proof. reflexivity. Qed.
+
+Lemma buf_extra_is_1 : print_buf_extra = 1.
+Proof. reflexivity. Qed.
+
+(* String_Format_To reserves room for the text and its NUL; File_Format_To returns vfprintf's count;
+   print_to_with has the statement shape the model encodes *)
+Lemma source_shape : string_fmt_room = 1 /\ file_fmt_returns_count = true /\ print_shape_ok = true.
+Proof. repeat split; reflexivity. Qed.
+
+(* ------------------------------------------------------------------------------------------ *)
+(* small list facts *)
+
+Lemma memb_In : forall c l, memb c l = true <-> In c l.
+Proof.
+  intros c l. unfold memb. rewrite existsb_exists. split.
+  - intros [x [Hin He]]. apply Nat.eqb_eq in He. subst. exact Hin.
+  - intros H. exists c. split; [exact H | apply Nat.eqb_refl].
+Qed.
+
+Lemma all_in_Forall : forall l set, all_in l set = true -> Forall (fun c => In c set) l.
+Proof.
+  intros l set H. unfold all_in in H. rewrite forallb_forall in H.
+  apply Forall_forall. intros x Hx. apply memb_In. apply H. exact Hx.
+Qed.
+
+Lemma list_eqb_eq : forall a b, list_eqb a b = true -> a = b.
+Proof.
+  induction a as [|x a IH]; intros [|y b] H; unfold list_eqb in H; simpl in H; try discriminate; try reflexivity.
+  apply andb_prop in H. destruct H as [Hl Hf].
+  apply andb_prop in Hf. destruct Hf as [Hxy Hf].
+  apply Nat.eqb_eq in Hxy. subst. f_equal. apply IH. unfold list_eqb. rewrite Hl, Hf. reflexivity.
+Qed.
+
+Lemma cstr_id : forall l, Forall (fun c => c <> 0) l -> forall r, cstr (l ++ 0 :: r) = l.
+Proof.
+  induction l as [|c l IH]; intros H r; simpl.
+  - reflexivity.
+  - inversion H; subst. destruct (Nat.eqb_spec c 0); [contradiction|]. f_equal. apply IH. assumption.
+Qed.
+
+(* ------------------------------------------------------------------------------------------ *)
+(* reading the format text *)
+
+Lemma rd_shift : forall pre suf k, rd (pre ++ suf) (length pre + k) = rd suf k.
+Proof.
+  intros pre suf k. unfold rd. rewrite app_length.
+  destruct (Nat.ltb_spec k (length suf)).
+  - destruct (Nat.ltb_spec (length pre + k) (length pre + length suf)); [|lia].
+    rewrite app_nth2_plus. reflexivity.
+  - destruct (Nat.ltb_spec (length pre + k) (length pre + length suf)); [lia|].
+    destruct (Nat.eqb_spec k (length suf)).
+    + subst. rewrite Nat.eqb_refl. reflexivity.
+    + destruct (Nat.eqb_spec (length pre + k) (length pre + length suf)); [lia|reflexivity].
+Qed.
+
+Lemma rd_at : forall pre suf, rd (pre ++ suf) (length pre) = rd suf 0.
+Proof. intros. rewrite <- (Nat.add_0_r (length pre)) at 1. apply rd_shift. Qed.
+
+Lemma rd_cons0 : forall c r, rd (c :: r) 0 = Some c.
+Proof. reflexivity. Qed.
+
+Lemma rd_nil0 : rd [] 0 = Some 0.
+Proof. reflexivity. Qed.
+
+Lemma rd_some_le : forall fmt i c, rd fmt i = Some c -> i <= length fmt.
+Proof.
+  intros fmt i c. unfold rd.
+  destruct (Nat.ltb_spec i (length fmt)); [lia|].
+  destruct (Nat.eqb_spec i (length fmt)); [lia|discriminate].
+Qed.
+
+(* ------------------------------------------------------------------------------------------ *)
+(* the two inner loops *)
+
+Definition stops_lit (rest : list byte) : Prop :=
+  match rest with [] => True | c :: _ => c = 0 \/ c = PCT end.
+
+Lemma skip_lit_run : forall s pre rest fuel,
+  Forall (fun c => c <> 0 /\ c <> PCT) s -> stops_lit rest -> length s < fuel ->
+  skip_lit (pre ++ s ++ rest) (length pre) fuel = Ok (length pre + length s).
+Proof.
+  induction s as [|c s IH]; intros pre rest fuel Hs Hr Hf.
+  - destruct fuel as [|f]; [simpl in Hf; lia|]. simpl. rewrite rd_at.
+    destruct rest as [|r0 rest].
+    + rewrite rd_nil0. simpl. f_equal. lia.
+    + rewrite rd_cons0. simpl in Hr.
+      assert (E : ((r0 =? 0) || (r0 =? PCT)) = true).
+      { destruct Hr as [-> | ->]; reflexivity. }
+      rewrite E. f_equal. simpl. lia.
+  - destruct fuel as [|f]; [simpl in Hf; lia|].
+    inversion Hs as [|? ? [Hc0 Hcp] Hs']; subst.
+    cbn [skip_lit]. rewrite rd_at. cbn [app]. rewrite rd_cons0.
+    destruct (Nat.eqb_spec c 0); [contradiction|].
+    destruct (Nat.eqb_spec c PCT); [contradiction|].
+    cbn [orb].
+    replace (pre ++ c :: s ++ rest) with ((pre ++ [c]) ++ s ++ rest) by (rewrite <- app_assoc; reflexivity).
+    replace (S (length pre)) with (length (pre ++ [c])) by (rewrite app_length; simpl; lia).
+    rewrite IH; [|assumption|assumption|simpl in Hf; lia].
+    f_equal. rewrite app_length. simpl. lia.
+Qed.
+
+Lemma skip_spec_run : forall convs mid pre c rest fuel,
+  Forall (fun m => strchr_hit convs m = false) mid -> strchr_hit convs c = true -> length mid < fuel ->
+  skip_spec convs (pre ++ mid ++ c :: rest) (length pre) fuel = Ok (length pre + length mid).
+Proof.
+  induction mid as [|m mid IH]; intros pre c rest fuel Hm Hc Hf.
+  - destruct fuel as [|f]; [simpl in Hf; lia|]. simpl. rewrite rd_at, rd_cons0, Hc. f_equal. lia.
+  - destruct fuel as [|f]; [simpl in Hf; lia|].
+    inversion Hm as [|? ? Hm0 Hm']; subst.
+    cbn [skip_spec]. rewrite rd_at. cbn [app]. rewrite rd_cons0, Hm0.
+    replace (pre ++ m :: mid ++ c :: rest) with ((pre ++ [m]) ++ mid ++ c :: rest) by (rewrite <- app_assoc; reflexivity).
+    replace (S (length pre)) with (length (pre ++ [m])) by (rewrite app_length; simpl; lia).
+    rewrite IH; [|assumption|assumption|simpl in Hf; lia].
+    f_equal. rewrite app_length. simpl. lia.
+Qed.
+
+(* results of the inner loops are readable indices not before the start; enough fuel never runs out *)
+Lemma skip_lit_ok : forall fmt fuel i j, skip_lit fmt i fuel = Ok j -> i <= j /\ j <= length fmt.
+Proof.
+  intros fmt. induction fuel as [|f IH]; intros i j H; [discriminate|].
+  simpl in H. destruct (rd fmt i) as [c|] eqn:E; [|discriminate].
+  destruct ((c =? 0) || (c =? PCT)).
+  - inversion H; subst. split; [lia|]. eapply rd_some_le; eauto.
+  - apply IH in H. lia.
+Qed.
+
+Lemma skip_spec_ok : forall convs fmt fuel i j, skip_spec convs fmt i fuel = Ok j -> i <= j /\ j <= length fmt.
+Proof.
+  intros convs fmt. induction fuel as [|f IH]; intros i j H; [discriminate|].
+  simpl in H. destruct (rd fmt i) as [c|] eqn:E; [|discriminate].
+  destruct (strchr_hit convs c).
+  - inversion H; subst. split; [lia|]. eapply rd_some_le; eauto.
+  - apply IH in H. lia.
+Qed.
+
+Lemma rd_beyond : forall fmt i, length fmt < i -> rd fmt i = None.
+Proof.
+  intros fmt i H. unfold rd.
+  destruct (Nat.ltb_spec i (length fmt)); [lia|].
+  destruct (Nat.eqb_spec i (length fmt)); [lia|reflexivity].
+Qed.
+
+Lemma skip_lit_fuel : forall fmt fuel i,
+  length fmt + 2 <= fuel + i -> i <= length fmt + 1 -> skip_lit fmt i fuel <> Fuel.
+Proof.
+  intros fmt. induction fuel as [|f IH]; intros i H Hi.
+  - lia.
+  - simpl. destruct (rd fmt i) as [c|] eqn:E; [|discriminate].
+    apply rd_some_le in E.
+    destruct ((c =? 0) || (c =? PCT)); [discriminate|]. apply IH; lia.
+Qed.
+
+Lemma skip_spec_fuel : forall convs fmt fuel i,
+  length fmt + 2 <= fuel + i -> i <= length fmt + 1 -> skip_spec convs fmt i fuel <> Fuel.
+Proof.
+  intros convs fmt. induction fuel as [|f IH]; intros i H Hi.
+  - lia.
+  - simpl. destruct (rd fmt i) as [c|] eqn:E; [|discriminate].
+    apply rd_some_le in E.
+    destruct (strchr_hit convs c); [discriminate|]. apply IH; lia.
+Qed.
+
+(* ------------------------------------------------------------------------------------------ *)
+(* the copy into the piece buffer *)
+
+Lemma cstr_nozero : forall l, Forall (fun c => c <> 0) l -> cstr l = l.
+Proof.
+  induction l as [|c l IH]; intros Hl; simpl; [reflexivity|].
+  inversion Hl; subst. destruct (Nat.eqb_spec c 0); [contradiction|]. f_equal. auto.
+Qed.
+
+Lemma buf_put_mid : forall pre x rest,
+  Forall (fun c => c <> 0) x ->
+  buf_put (pre ++ x ++ rest) (length pre) (length x) = Some x.
+Proof.
+  intros pre x rest Hx. unfold buf_put, bufsize. rewrite buf_extra_is_1.
+  rewrite !app_length.
+  destruct (Nat.leb_spec (length pre + length x) (length pre + (length x + length rest) + 1)) as [_|Hbad]; [|lia].
+  destruct (Nat.ltb_spec (length x) (length pre + (length x + length rest) + 1)) as [_|Hbad]; [|lia].
+  cbn [andb]. f_equal.
+  rewrite <- !app_assoc. rewrite skipn_app, skipn_all, Nat.sub_diag. cbn [skipn app].
+  rewrite firstn_app, firstn_all, Nat.sub_diag. cbn [firstn].
+  rewrite app_nil_r. apply cstr_nozero. exact Hx.
+Qed.
+
+(* ------------------------------------------------------------------------------------------ *)
+(* one iteration of the scanner on the text of one item, wherever it stands *)
+
+Lemma scan_fuel_gt : forall fmt n, n <= length fmt -> n < scan_fuel fmt.
+Proof. intros. unfold scan_fuel. lia. Qed.
+
+Lemma next_token_end : forall pre, next_token (pre ++ []) (length pre) = Ok (TEnd, length pre).
+Proof. intros. unfold next_token. rewrite rd_at, rd_nil0. reflexivity. Qed.
+
+Lemma next_token_lit : forall pre s rest,
+  s <> [] -> Forall (fun c => c <> 0 /\ c <> PCT) s -> stops_lit rest ->
+  next_token (pre ++ s ++ rest) (length pre) = Ok (TLit s, length pre + length s).
+Proof.
+  intros pre s rest Hne Hs Hr. unfold next_token.
+  rewrite rd_at. destruct s as [|c s']; [contradiction|].
+  cbn [app]. rewrite rd_cons0.
+  inversion Hs as [|? ? [Hc0 Hcp] Hs']; subst.
+  destruct (Nat.eqb_spec c 0); [contradiction|].
+  change (pre ++ c :: s' ++ rest) with (pre ++ (c :: s') ++ rest).
+  rewrite skip_lit_run; [|assumption|assumption|].
+  2:{ apply scan_fuel_gt. rewrite !app_length. lia. }
+  destruct (Nat.eqb_spec (length pre + length (c :: s')) (length pre)) as [E|_]; [simpl in E; lia|].
+  cbn [negb].
+  replace (length pre + length (c :: s') - length pre) with (length (c :: s')) by lia.
+  rewrite buf_put_mid; [reflexivity|].
+  apply Forall_impl with (2 := Hs). intros a [Ha _]. exact Ha.
+Qed.
+
+Lemma skip_lit_at_pct : forall pre rest,
+  skip_lit (pre ++ PCT :: rest) (length pre) (scan_fuel (pre ++ PCT :: rest)) = Ok (length pre).
+Proof.
+  intros pre rest.
+  pose proof (skip_lit_run [] pre (PCT :: rest) (scan_fuel (pre ++ PCT :: rest))) as H.
+  cbn [app length] in H. rewrite Nat.add_0_r in H. apply H.
+  - constructor.
+  - right. reflexivity.
+  - unfold scan_fuel. lia.
+Qed.
+
+Lemma next_token_pct : forall pre rest,
+  next_token (pre ++ [PCT; PCT] ++ rest) (length pre) = Ok (TPct, length pre + 2).
+Proof.
+  intros pre rest. unfold next_token. cbn [app].
+  rewrite rd_at, rd_cons0. change (PCT =? 0) with false. cbv iota.
+  rewrite skip_lit_at_pct. rewrite Nat.eqb_refl. cbn [negb]. cbv zeta.
+  rewrite Nat.eqb_refl.
+  rewrite rd_shift. change (rd (PCT :: PCT :: rest) 1) with (Some PCT).
+  rewrite pct_skip_is_2. reflexivity.
+Qed.
+
+Definition passes (m : byte) : Prop := strchr_hit print_convs m = false /\ m <> PCT.
+
+Lemma passes_nonzero : forall m, passes m -> m <> 0.
+Proof. intros m [H _] E. subst. discriminate H. Qed.
+
+Lemma next_token_spec : forall pre mid c rest,
+  Forall passes mid -> strchr_hit print_convs c = true -> c <> 0 -> c <> PCT ->
+  next_token (pre ++ (PCT :: mid ++ [c]) ++ rest) (length pre)
+  = Ok (TSpec (PCT :: mid ++ [c]) c, length pre + length (PCT :: mid ++ [c])).
+Proof.
+  intros pre mid c rest Hm Hc Hc0 Hcp. unfold next_token.
+  set (fmt := pre ++ (PCT :: mid ++ [c]) ++ rest).
+  assert (Efmt : fmt = pre ++ PCT :: (mid ++ [c]) ++ rest) by reflexivity.
+  rewrite Efmt at 1. rewrite rd_at, rd_cons0. change (PCT =? 0) with false. cbv iota.
+  rewrite Efmt at 1 2. rewrite skip_lit_at_pct. rewrite Nat.eqb_refl. cbn [negb]. cbv zeta.
+  rewrite Nat.eqb_refl.
+  rewrite Efmt at 1. rewrite rd_shift.
+  assert (E1 : exists c1, rd (PCT :: (mid ++ [c]) ++ rest) 1 = Some c1 /\ c1 <> PCT).
+  { destruct mid as [|m mid'].
+    - exists c. split; [reflexivity|assumption].
+    - exists m. split; [reflexivity|]. inversion Hm as [|? ? [_ Hmp] _]. exact Hmp. }
+  destruct E1 as [c1 [E1 Hc1]]. rewrite E1.
+  destruct (Nat.eqb_spec c1 PCT); [contradiction|].
+  assert (Efmt2 : fmt = pre ++ (PCT :: mid) ++ c :: rest).
+  { unfold fmt. cbn [app]. rewrite <- !app_assoc. reflexivity. }
+  rewrite Efmt2 at 1.
+  rewrite skip_spec_run.
+  2:{ constructor; [apply pct_passes|]. apply Forall_impl with (2 := Hm). intros a [Ha _]. exact Ha. }
+  2:{ exact Hc. }
+  2:{ apply scan_fuel_gt. rewrite Efmt2. rewrite !app_length. simpl. lia. }
+  destruct (Nat.eqb_spec (length pre + length (PCT :: mid)) (length pre)) as [E|_]; [simpl in E; lia|].
+  cbn [negb].
+  replace (length pre + length (PCT :: mid) - length pre + 1) with (length (PCT :: mid ++ [c])).
+  2:{ simpl. rewrite app_length. simpl. lia. }
+  unfold fmt at 1. rewrite buf_put_mid.
+  2:{ constructor; [discriminate|]. apply Forall_app. split.
+      - apply Forall_impl with (2 := Hm). apply passes_nonzero.
+      - constructor; [assumption|constructor]. }
+  assert (Efmt3 : fmt = (pre ++ PCT :: mid) ++ c :: rest).
+  { rewrite Efmt2. rewrite <- app_assoc. reflexivity. }
+  replace (length pre + length (PCT :: mid)) with (length (pre ++ PCT :: mid)) by (rewrite app_length; reflexivity).
+  rewrite Efmt3 at 1. rewrite rd_at, rd_cons0.
+  f_equal. f_equal. rewrite !app_length. simpl. rewrite app_length. simpl. lia.
+Qed.
